@@ -90,3 +90,12 @@ Definition ax_id (a : axis) (j : nat) : Z :=
 (* stored coordinate of local element q of block j *)
 Definition ax_src (a : axis) (jq : nat * Z) : Z :=
   let '(k, lo, _) := nth (fst jq) (ax_blocks a) dflt_blk in ax_off a + cstart (ax_chunks a) k + lo + snd jq.
+
+(* spec side: first coordinate of a window, and start coordinate of the chunk that covers element x *)
+Definition wlo (w : option (Z * Z)) : Z := match w with Some (lo, _) => lo | None => 0 end.
+Definition chunk_start (cs : list Z) (x : Z) : Z := cstart cs (fst (loc cs 0 x)).
+(* a normalised, non-empty window of an axis with chunks cs, and its size *)
+Definition win_ok (cs : list Z) (w : option (Z * Z)) : Prop :=
+  match w with None => True | Some (lo, hi) => 0 <= lo /\ lo < hi /\ hi <= zsum cs end.
+Definition wsize (cs : list Z) (w : option (Z * Z)) : Z :=
+  match w with None => zsum cs | Some (lo, hi) => hi - lo end.
